@@ -194,7 +194,7 @@ class Engine:
         oid += "|" + self.case_name
         props = self.contract.clause_props(kind, label) if self.contract else []
         extra = dict(extra or {})
-        extra["params"] = getattr(self, "pre_params", None)
+        extra["params"] = getattr(self, "replay_params", None) or getattr(self, "pre_params", None)
         for k in getattr(self.world, "known", []):
             if k.get("obligation") == oid and k.get("excluding"):
                 sf = getattr(self, "cur_spec_frame", None)
@@ -717,6 +717,9 @@ class Engine:
                 after = self.spec_eval(dec, frame, {})
                 self.oblige("variant", "decreases", self.world.ext.variant_decreases(self, before, after),
                             exit_text=text, clause=dec)
+            elif lc.get("termination_assumed"):
+                # partial correctness only for this loop: reported with the assumptions of every run that meets it
+                self.world.ext.use(self, "TERMINATION NOT PROVED for %s of %s: %s" % (text, frame.fsrc.qualname, lc["termination_assumed"]))
             else:
                 raise Unsupported("while loop without decreases clause")
             raise PathEnd()
@@ -867,6 +870,15 @@ class Engine:
         for v in node.values:
             if isinstance(v, ast.Constant) and isinstance(v.value, str):
                 parts.append(z3.StringVal(v.value))
+            elif (isinstance(v, ast.FormattedValue) and v.conversion == -1 and v.format_spec is None and not isinstance(v.value, ast.Name)
+                  and getattr(frame.contract, "evaluate_fstrings", False)):
+                # opt-in (contracts whose f-strings build identifiers, e.g. "$ref" targets): the parts are evaluated in order,
+                # with their effects; a part that is not a str value makes the text opaque
+                val = self.eval(v.value, frame)
+                if isinstance(val, VStr):
+                    parts.append(val.t)
+                else:
+                    parts.append(self.fresh("fstr_part", S))
             elif isinstance(v, ast.FormattedValue) and v.conversion == -1 and v.format_spec is None and isinstance(v.value, ast.Name):
                 try:
                     val = self.lookup(v.value.id, frame, v.value)
